@@ -183,6 +183,37 @@ func runC12(r *engine.Run) {
 		checkChannels(c, cfg, b, "after disabling channel 0")
 	})
 
+	// far arguments: integers that a narrowing conversion would fold onto valid indices
+	r.PartDims("far-arguments", []string{fmt.Sprintf("config:%d", len(cfgs)), fmt.Sprintf("far integers:%d", len(farInts())), "argument position{data-rate, offset, channel index}"}, uint64(len(cfgs)), func(c *engine.Case) {
+		cfg := cfgs[c.Index]
+		b := newBand(cfg)
+		s := snapOf(b)
+		for _, v := range farInts() {
+			for _, dr := range sortedKeys(s.DataRates) {
+				c.Eval()
+				if got, err := b.GetRX1DataRateIndex(dr, v); err == nil {
+					c.Fail("far-argument-accepted/GetRX1DataRateIndex/offset", fmt.Sprintf("%v: GetRX1DataRateIndex(%d, %d) = %d without an error", cfg, dr, v, got), nil)
+				}
+			}
+			for off := 0; off <= 2; off++ {
+				c.Eval()
+				if _, defined := s.DataRates[v]; defined {
+					continue
+				}
+				if got, err := b.GetRX1DataRateIndex(v, off); err == nil {
+					c.Fail("far-argument-accepted/GetRX1DataRateIndex/data-rate", fmt.Sprintf("%v: GetRX1DataRateIndex(%d, %d) = %d without an error", cfg, v, off, got), nil)
+				}
+			}
+			c.Eval()
+			c.NonTrivial()
+			// the property does not demand an error for an unknown channel index (EU-style
+			// bands answer the index itself); only a panic is judged
+			if pn, site, val := engine.Try(func() { b.GetRX1ChannelIndexForUplinkChannelIndex(v) }); pn {
+				c.Fail("panic/"+site, fmt.Sprintf("%v: GetRX1ChannelIndexForUplinkChannelIndex(%d) panics: %v", cfg, v, val), nil)
+			}
+		}
+	})
+
 	// histories (E2): custom channels whose frequency is fresh or already in the plan
 	// (the EU868-style 868.3 MHz DR0-5 + DR6 pair), toggles; every reached state is checked
 	for _, name := range bandNames {
